@@ -402,12 +402,12 @@ def fn_shared_close : List SkOp := [
 ]
 
 def fn_shared_isClosed : List SkOp := [
-    ⟨"select", "recv:done|default", [], []⟩,
-    ⟨"caseBegin", "", [], []⟩,
-    ⟨"ret", "true", [], []⟩,
-    ⟨"caseEnd", "", [], []⟩,
+    ⟨"select", "default|recv:done", [], []⟩,
     ⟨"caseBegin", "", [], []⟩,
     ⟨"ret", "false", [], []⟩,
+    ⟨"caseEnd", "", [], []⟩,
+    ⟨"caseBegin", "", [], []⟩,
+    ⟨"ret", "true", [], []⟩,
     ⟨"caseEnd", "", [], []⟩
 ]
 
